@@ -1,5 +1,203 @@
-"""C01.7 mempool-visitor flags (placeholder, filled below)."""
+"""C01.7 / C19.3 — mempool-visitor flag bookkeeping against spec/mempool_flags.json."""
+import json
+import os
+
+from .. import apnf
+from .. import facts as F
+from .. import paths as P
+from ..mir import Body, strip_all, show, subterms
+from . import util as U
+from . import regions as RG
+
+MV = "<chia_consensus::conditions::MempoolVisitor as chia_consensus::spend_visitor::SpendVisitor>::"
+PARENT_BIT = 4     # messages::PARENT
 
 
-def run(ctx):
-    pass
+def load():
+    with open(os.path.join(F.VERIF, "spec", "mempool_flags.json")) as f:
+        return json.load(f)
+
+
+def extract_condition_table(fb):
+    """{variant: {frozenset(extra facts): frozenset(cleared flag bits)}} from MempoolVisitor::condition"""
+    f = fb.fns.get(MV + "condition")
+    if not f:
+        return None, None
+    b = Body(f, fb)
+    table = {}
+    counter_ok = True
+    for ev, ex in P.enumerate_paths(b, want_assign=True):
+        facts_ = [apnf.fact(t, l) for t, l in P.conds(ev)]
+        variants = None
+        extra = []
+        for t, v in facts_:
+            if t == "c" and isinstance(v, str):
+                variants = v.split("|")
+            else:
+                extra.append((t, v))
+        cleared = set()
+        bumps = 0
+        for e in ev:
+            x = RG.effect_of(e)
+            if not x or x[0] != "set":
+                continue
+            if x[1] == (".flags", "spend"):
+                val = x[2]
+                if isinstance(val, tuple) and val[0] == "BitAnd" and val[1] == (".flags", "spend") and isinstance(val[2], tuple) and val[2][0] == "Not":
+                    cleared.add(val[2][1])
+                else:
+                    cleared.add("?" + str(val)[:60])
+            elif x[1] == (".condition_counter", "self"):
+                bumps += 1
+        if bumps != 1:
+            counter_ok = False
+        for v in variants or ["?"]:
+            table.setdefault(v, {})[frozenset(extra)] = frozenset(cleared)
+    return table, counter_ok
+
+
+def run(ctx, rule="C01.7"):
+    R = rule
+    fb = ctx.fb
+    spec = load()
+    FF, DD = spec["flags"]["ELIGIBLE_FOR_FF"], spec["flags"]["ELIGIBLE_FOR_DEDUP"]
+    for k, v in spec["flags"].items():
+        c = fb.consts.get("chia_consensus::conditions::" + k, {}).get("value")
+        ctx.ob(R, "flag-const:" + k, c == v, "%s == %d" % (k, v), found=c)
+    table, counter_ok = extract_condition_table(fb)
+    if table is None:
+        return ctx.missing(R, "MempoolVisitor::condition", "not found")
+    ctx.touched(MV + "condition")
+    adt = fb.adts.get("chia_consensus::conditions::Condition")
+    all_variants = [v["name"] for v in adt["variants"]] if adt else []
+    ctx.ob(R, "all-variants-routed", set(table) == set(all_variants), "every Condition variant is routed through the visitor's match",
+           found=sorted(set(table) ^ set(all_variants)))
+    ctx.ob(R, "condition-counter", counter_ok, "condition_counter is incremented exactly once per condition on every path")
+    n = 0
+    cond_ff = spec["clears_ff_conditionally"]
+    for v in all_variants:
+        rows = table.get(v, {})
+        want_unconditional = frozenset(([FF] if v in spec["clears_ff"] else []) + ([DD] if v in spec["clears_dedup"] else []))
+        n += 1
+        if v in cond_ff:
+            # two rows: condition true => also FF
+            ok = len(rows) == 2
+            got = {}
+            for extra, cleared in rows.items():
+                (t, val), = list(extra) if len(extra) == 1 else [(None, None)]
+                got[str(t)[:80] + "=" + str(val)] = sorted(cleared)
+                if v == "AssertMyParentId":
+                    role_ok = t == ("Ne", (".condition_counter", "self"), 1)
+                else:
+                    idx = ".0" if v == "SendMessage" else ".1"
+                    role_ok = isinstance(t, tuple) and t[0] == "Ne" and t[2] == 0 and isinstance(t[1], tuple) and t[1][0].lower() == "bitand" \
+                        and t[1][2] == PARENT_BIT and t[1][1] == (idx, ("as:" + v, "c"))
+                want = set(want_unconditional) | ({FF} if val is True else set())
+                ok = ok and role_ok and set(cleared) == want
+            ctx.ob(R, "flags:" + v, ok, "%s clears FF %s; DEDUP %s" % (v, cond_ff[v], "always" if v in spec["clears_dedup"] else "never"), found=got)
+        else:
+            ok = len(rows) == 1 and list(rows.keys()) == [frozenset()] and list(rows.values()) == [want_unconditional]
+            ctx.ob(R, "flags:" + v, ok, "%s clears exactly %s" % (v, sorted(want_unconditional) or "nothing"),
+                   found={str(sorted(map(str, k))): sorted(c) for k, c in rows.items()})
+    ctx.floor(R, "condition variants in the mempool flag table", n, 36)
+    ctx.sample({"rule": R, "AssertMyParentId": {str(sorted(map(str, k))): sorted(v) for k, v in table.get("AssertMyParentId", {}).items()}})
+    # PARENT bit of message modes
+    pb = fb.consts.get("chia_consensus::messages::PARENT", {}).get("value")
+    ctx.ob(R, "messages::PARENT", pb == PARENT_BIT, "messages::PARENT == 0b100", found=pb)
+    # new_spend: DEDUP always, FF iff amount odd
+    f = fb.fns.get(MV + "new_spend")
+    if f:
+        b = Body(f, fb)
+        rows = set()
+        for ev, ex in P.enumerate_paths(b, want_assign=True):
+            facts_ = frozenset(apnf.fact(t, l) for t, l in P.conds(ev))
+            sets = [RG.effect_of(e) for e in ev if RG.effect_of(e) and RG.effect_of(e)[1] == (".flags", "spend")]
+            rows.add((facts_, str(sets[-1][2]) if sets else None))
+        odd = ("Eq", ("BitAnd", (".coin_amount", "spend"), 1), 1)
+        exp = {(frozenset({(odd, True)}), str(("BitOr", (".flags", "spend"), 1 | 4))),
+               (frozenset({(odd, False)}), str(("BitOr", (".flags", "spend"), 1)))}
+        ok = rows == exp or _new_spend_ok(rows, odd)
+        ctx.ob(R, "new_spend", ok, "a new spend starts DEDUP-eligible, and FF-eligible iff its amount is odd", found=[str(x)[:200] for x in rows])
+    # post_spend: FF needs an output (own puzzle hash, own amount); DEDUP needs amount <= sum(outputs)
+    f = fb.fns.get(MV + "post_spend")
+    if f:
+        b = Body(f, fb)
+        cl = fb.closures_of(f.path)
+        match_ok = False
+        for c in cl:
+            cb = Body(c, fb)
+            captured = {d["name"] for d in c.body.get("dbg", []) if d["pl"].get("p")}
+            fields = set()
+            ops = set()
+            for bi, blk in enumerate(cb.blocks):
+                if bi not in cb.reach:
+                    continue
+                for st in blk["s"]:
+                    if st["k"] == "assign":
+                        for x in subterms(cb.rvalue_term(st["rv"])):
+                            if isinstance(x, tuple) and x and x[0] == "f" and x[2] in ("puzzle_hash", "amount"):
+                                fields.add(x[2])
+                            if isinstance(x, tuple) and x and x[0] == "bin":
+                                ops.add(x[1])
+                if blk["t"]["k"] == "call":
+                    nm = U.flat(mir_callee(blk["t"]))
+                    if nm.endswith("::eq"):
+                        ops.add("eq")
+            if {"spend__coin_amount", "spend__puzzle_hash"} <= captured and fields == {"puzzle_hash", "amount"} and {"Eq", "eq"} <= ops:
+                match_ok = True
+        sums = [c for c in cl if any("as u128" in show(strip_all(Body(c, fb).rvalue_term(st["rv"]))) for bi, blk in enumerate(Body(c, fb).blocks) for st in blk["s"] if st["k"] == "assign")]
+
+        def excess(t, lab):
+            t2 = strip_all(t)
+            return t2[0] == "bin" and t2[1] == "Gt" and U.has_field(t2[2], "coin_amount") and "u128" in str(t2[2]) and lab == ("bool", True)
+        ex_edges = U.edges_where(b, excess)
+        ctx.ob(R, "post_spend", match_ok and len(sums) >= 1 and len(ex_edges) == 1,
+               "post_spend: FF needs an output with own puzzle hash and amount; DEDUP is cleared iff coin_amount as u128 > sum of outputs (strict)",
+               found={"output-match": match_ok, "sum-closure": len(sums), "excess-guard": len(ex_edges)})
+    # post_process: FF cleared for ASSERT_CONCURRENT_SPEND targets and for spends with an ephemeral child
+    f = fb.fns.get(MV + "post_process")
+    if f:
+        b = Body(f, fb)
+        coins = []
+        for bi, blk in enumerate(b.blocks):
+            for s in blk["s"]:
+                if s["k"] == "assign" and s["rv"]["k"] == "agg" and s["rv"].get("adt") == "chia_protocol::coin::Coin":
+                    coins.append(dict(zip(s["rv"]["fields"], [show(strip_all(b.operand_term(o))) for o in s["rv"]["ops"]])))
+        ok = len(coins) == 1 and "coin_id" in coins[0]["parent_coin_info"] and "puzzle_hash" in coins[0]["puzzle_hash"] and "amount" in coins[0]["amount"]
+        names = [U.flat(n) for _, n, _ in b.calls()]
+        ok = ok and any(n.endswith("HashMap::contains_key") for n in names) and any(n.endswith("HashMap::get") for n in names) and \
+            any(n.endswith("Coin::coin_id") for n in names)
+        ctx.ob(R, "post_process", ok,
+               "post_process clears FF for ASSERT_CONCURRENT_SPEND targets and for spends whose child Coin(own id, ph, amount) is spent in the bundle",
+               found=coins)
+    # hooks are invoked: new_spend before parse_conditions; condition once per parsed condition; post_spend after the loop
+    pc = RG.parse_conditions_body(fb)
+    if pc is not None:
+        cond = [bi for bi, n, t in pc.calls() if "SpendVisitor" in n and n.endswith("::condition")]
+        pa = [bi for bi, n, t in pc.calls() if n.endswith("conditions::parse_args")]
+        ps = [bi for bi, n, t in pc.calls() if "SpendVisitor" in n and n.endswith("::post_spend")]
+        sw, heads = RG.locate(pc)
+        ok = len(cond) == 1 and len(pa) == 1 and pc.dominates(pa[0], cond[0]) and sw is not None and pc.dominates(cond[0], sw) and \
+            len(ps) == 1 and not pc.in_cycle(ps[0])
+        if ok:
+            a = [strip_all(pc.operand_term(x)) for x in pc.blocks[cond[0]]["t"]["args"]]
+            ok = "parse_args" in str(a[-1])
+        ctx.ob(R, "hooks", ok, "visitor.condition sees every parsed condition (after parse_args, before its effect); post_spend runs once after the loop")
+
+
+def mir_callee(t):
+    from ..mir import callee_name
+    return callee_name(t["f"])
+
+
+def _new_spend_ok(rows, odd):
+    """accept equivalent shapes: the flag word or-ed into spend.flags is 1 (DEDUP) or 1|4 depending on the parity test"""
+    if len(rows) != 2:
+        return False
+    seen = {}
+    for facts_, val in rows:
+        par = [v for t, v in facts_ if t == odd]
+        if len(par) != 1 or val is None:
+            return False
+        seen[par[0]] = val
+    return ("4" in seen.get(True, "") and "4" not in seen.get(False, "X4")) and "1" in seen.get(False, "")
